@@ -9,3 +9,24 @@ func TestSelfCheck(t *testing.T) {
 		t.Fatal(err)
 	}
 }
+
+func TestSwagger(t *testing.T) {
+	if err := CheckVendoredSwaggerSchema(); err != nil {
+		t.Fatal(err)
+	}
+	doc := MustParse(`{"swagger":"2.0","info":{"title":"t","version":"1"},"paths":{"/a":{"get":{"responses":{"200":{"description":"ok"}}}}}}`)
+	c := SwaggerCtx(Emu{})
+	if !c.Valid(Swagger20, doc) || c.Unresolved {
+		t.Fatal("minimal document should be valid", c.Unresolved)
+	}
+	bad := MustParse(`{"swagger":"2.0","info":{"title":"t"},"paths":{}}`)
+	c = SwaggerCtx(Emu{})
+	if c.Valid(Swagger20, bad) {
+		t.Fatal("missing version should be invalid")
+	}
+	bad2 := MustParse(`{"swagger":"2.0","info":{"title":"t","version":"1"},"paths":{"/a":{"get":{"parameters":[{"name":"x","in":"query","type":"arrayy"}],"responses":{"200":{"description":"ok"}}}}}}`)
+	c = SwaggerCtx(Emu{})
+	if c.Valid(Swagger20, bad2) || c.Unresolved {
+		t.Fatal("unknown parameter type should be invalid")
+	}
+}
